@@ -231,6 +231,13 @@ class SpanWrappingMatcher(wrappers.WrappingMatcher):
         self.child.skip_to(id)
         self._find_next()
 
+    def skip_to_quality(self, minquality):
+        skipped = wrappers.WrappingMatcher.skip_to_quality(self, minquality)
+        # The wrapped matcher may have landed on a document without matching
+        # spans (and the cached spans belong to the previous document)
+        self._find_next()
+        return skipped
+
     def all_ids(self):
         while self.is_active():
             if self.spans():
